@@ -1,7 +1,7 @@
 /-
   C02 core (task W6-C02CORE), helper part 9:
-  * the lookup covers every contig base inside the bait (C12: lookup = brute force), so "inside the lookup span" can be
-    dropped from `CoreKept` (`coreKept_all`);
+  * with the lookup covering every contig base inside the bait (`lookup_covers_bait`, Proofs/C02KSafe.lean), "inside the
+    lookup span" can be dropped from `CoreKept` (`coreKept_all`);
   * two output scaffolds of one output assembly that share a contig base are the same scaffold (C01 `remap_exactly_once`);
   * two DIFFERENT stored results never hold the same contig base (C01 `remapToInput_partition`).
 -/
@@ -13,58 +13,6 @@ namespace AgpTpf.C02
 open AgpTpf OverlapResult
 open AgpTpf.C18 (Inv ids rowsLength_nil rowsLength_cons rowsLength_append rowsLength_singleton)
 open AgpTpf.C01 (WFInput inputFrags)
-
-/-! ### the lookup covers the contig bases inside the bait -/
-
-theorem rowAt_some_decomp : ∀ (src : List Row), NonNeg src → ∀ (x : Int) (r : Row), 1 ≤ x → rowAt src x = some r →
-    ∃ X Y, src = X ++ r :: Y ∧ rowsLength X < x ∧ x ≤ rowsLength X + r.length
-  | [], _, x, r, _, h => by simp [rowAt] at h
-  | a :: t, hn, x, r, h1, h => by
-    simp only [rowAt] at h
-    by_cases hx : x ≤ a.length
-    · rw [if_pos hx] at h
-      cases h
-      exact ⟨[], t, rfl, by rw [rowsLength_nil]; omega, by rw [rowsLength_nil]; omega⟩
-    · rw [if_neg hx] at h
-      obtain ⟨X, Y, e, q1, q2⟩ := rowAt_some_decomp t (fun z hz => hn z (List.mem_cons_of_mem _ hz)) (x - a.length) r
-        (by omega) h
-      exact ⟨a :: X, Y, by rw [e]; rfl, by rw [rowsLength_cons]; omega, by rw [rowsLength_cons]; omega⟩
-
-/-- every contig base of the scaffold that lies inside the bait lies inside the span of the lookup result -/
-theorem lookup_covers_bait {src : List Row} {bait : Fragment} {o : OverlapResult} (hlen : NonNeg src)
-    (h : findOverlaps src bait = .ok (some o)) {x : Int} (hc : ContigAt src x) (h1 : bait.start ≤ x) (h2 : x ≤ bait.stop) :
-    o.start ≤ x ∧ x ≤ o.stop := by
-  have hne : src ≠ [] := by
-    intro he; subst he; simp [findOverlaps] at h
-  rw [C12.find_overlaps_spec_strong src bait hne hlen] at h
-  have h' : C12.bruteForce src bait = some o := by simpa using h
-  obtain ⟨i, j, hi, hj, hall, rfl⟩ := C12.bruteForce_eq_some src bait o h'
-  obtain ⟨hx1, f, hf⟩ := hc
-  obtain ⟨X, Y, hs, q1, q2⟩ := rowAt_some_decomp src hlen x _ hx1 hf
-  have hk : src[X.length]? = some (.frag f) := by rw [hs]; simp
-  have hklt : X.length < src.length := by rw [hs]; simp
-  have hk' : src[X.length] = .frag f := by
-    obtain ⟨_, e⟩ := List.getElem?_eq_some_iff.mp hk; exact e
-  have e1 : C12.pre src X.length = rowsLength X := by unfold C12.pre; rw [hs]; simp
-  have e2 : C12.pre src (X.length + 1) = rowsLength X + f.length := by
-    rw [C12.pre_succ src X.length hklt, hk', e1]; rfl
-  have hm : C12.meets src bait.start bait.stop X.length = true := by
-    rw [C12.meets_iff]
-    refine ⟨f, hk, ?_, ?_⟩
-    · simp only [C12.rowSpan]
-      have : rowsLength (src.take X.length) = rowsLength X := e1
-      simp only [Row.length] at q2; omega
-    · simp only [C12.rowSpan]
-      have : rowsLength (src.take (X.length + 1)) = rowsLength X + f.length := e2
-      simp only [Row.length] at q2; omega
-  obtain ⟨hik, hkj⟩ := hall _ hm
-  have m1 := C12.pre_mono src hlen i X.length hik
-  have m2 := C12.pre_mono src hlen (X.length + 1) (j + 1) (by omega)
-  simp only [C12.rowSpan]
-  have e3 : rowsLength (src.take i) = C12.pre src i := rfl
-  have e4 : rowsLength (src.take (j + 1)) = C12.pre src (j + 1) := rfl
-  simp only [Row.length] at q2
-  constructor <;> omega
 
 /-- with the lookup covering the bait: EVERY contig base of the scaffold in the core is inside the result's span -/
 theorem coreKept_all {src : List Row} {M : Int} {bait : Fragment} {o0 o : OverlapResult} (hlen : NonNeg src) (hM : 0 ≤ M)
